@@ -245,6 +245,11 @@ pub struct Plan {
     pub fault_write: Option<(usize, WStep)>,
     /// The same for flush call `index`.
     pub fault_flush: Option<(usize, ErrKind)>,
+    /// `Ok(0)` once, at the first write call with index >= .0 whose buffer
+    /// has between .1 and .2 bytes (aims at writes of one kind, e.g. packed
+    /// integers of 3..7 bytes far into a large build). Internal to scenarios
+    /// that build their plan from other parameters; not part of case files.
+    pub fault_write_sized: Option<(usize, usize, usize)>,
     /// The file implements `write_vectored` natively: one call may accept
     /// bytes across several of the caller's buffers (and stop anywhere).
     pub vectored: bool,
@@ -278,6 +283,7 @@ impl Plan {
             flips: vec![],
             fault_write: None,
             fault_flush: None,
+            fault_write_sized: None,
             vectored: false,
             err_repr: ErrRepr::Message,
             reenter_every: 0,
@@ -348,6 +354,7 @@ pub struct SinkState {
     pub record: bool,
     pub rec_writes: Vec<WStep>,
     pub rec_flushes: Vec<FStep>,
+    sized_fired: bool,
     pub first_fault_event: Option<u64>,
     pub first_fault_kind: Option<ErrKind>,
     pub first_fault_op: Option<u32>,
@@ -381,6 +388,7 @@ impl SinkState {
             record: true,
             rec_writes: Vec::new(),
             rec_flushes: Vec::new(),
+            sized_fired: false,
             first_fault_event: None,
             first_fault_kind: None,
             first_fault_op: None,
@@ -441,6 +449,7 @@ impl SinkState {
             flips: self.plan.flips.clone(),
             fault_write: self.plan.fault_write,
             fault_flush: self.plan.fault_flush,
+            fault_write_sized: self.plan.fault_write_sized,
             vectored: self.plan.vectored,
             err_repr: self.plan.err_repr,
             reenter_every: self.plan.reenter_every,
@@ -490,6 +499,12 @@ impl SinkState {
         if let Some((at, step)) = self.plan.fault_write {
             if at == i {
                 return step;
+            }
+        }
+        if let Some((from, lo, hi)) = self.plan.fault_write_sized {
+            if !self.sized_fired && i >= from && len >= lo && len <= hi {
+                self.sized_fired = true;
+                return WStep::Zero;
             }
         }
         if i < self.plan.writes.len() {
